@@ -10,7 +10,12 @@
                  in recorded order:
                    req  request bytes (Seq(0..255)) as logged / as replayed
                    rec  reply bytes the database holds for that exchange,
-                        <<>> = no reply was recorded (silence)
+                        <<>> = no reply was recorded (silence).  "Holds" = what
+                        any ordinary reader of the database sees, i.e. every
+                        committed row, wherever its bytes physically sit (main
+                        file or write-ahead log, recorder / other connections
+                        still open or not): the statement says "recorded into
+                        the database", not "checkpointed"
                    rep  bytes the virtual ECU answered, <<>> = it stayed silent,
                         <<-1>> = it raised instead of answering
                    cs   state the client logged with the exchange
